@@ -81,6 +81,7 @@ func (e *Exec) runPath(pkg *ssa.Package, fn *ssa.Function, prefix []Decision) (r
 	e.mapOrderAny = false
 	e.observed = nil
 	e.observedT = nil
+	e.codecNoFaults = false
 	e.model = nil
 	e.allowPanic = false
 	e.allowDeadlock = false
